@@ -18,12 +18,12 @@ character doubled inside it (repair 687226d), for every name without "/", "--" a
 What is still *not* true of the code, and therefore only stated as `ColumnsFullStatement` with a
 counterexample: the recovery of names for all of SQLite's CREATE TABLE syntax (a "/" inside a quoted
 name is enough: open finding C07-09, "/" and "--" inside names, literals and expressions; further
-open findings: C07-13 whitespace runs inside quoted names, C07-03 STRICT, C07-18 bracket names that
-begin or end with "[": `BracketFullStatement` with its own counterexample, C07-17 SQLite's reading of
+open findings: C07-13 whitespace runs inside quoted names, C07-03 STRICT, C07-17 SQLite's reading of
 `GENERATED/**/ALWAYS` as a declared type).  (5) `[bracket]` names: read up to the first "]", a newline
-included (repair 417a203), and what the `.strip("[]")` does to them.
-The model mirrors /repo after the repairs 65104eb … 07e13e3, 687226d, 41d65d3, 417a203 (C07-01, -02,
--04, -05, -06, -07, -08, -10, -11, -12, -14, -16; C07-15 is in output.py).
+included (repair 417a203), the name being the text between the brackets (repair d4f87a6) — the name
+readers for every name, `ColumnDefinition` with the same two exceptions (`BracketFullStatement`).
+The model mirrors /repo after the repairs 65104eb … 07e13e3, 687226d, 41d65d3, 417a203, d4f87a6
+(C07-01, -02, -04, -05, -06, -07, -08, -10, -11, -12, -14, -16, -18; C07-15 is in output.py).
 
 That the schema *rows* of every version are the rows of the page-1 b-tree (type, name, tbl_name,
 rootpage, sql) is the business of Model.Database / Model.Wal (db.dump / vh.dump correspondence,
@@ -291,39 +291,34 @@ example :
 
 The fourth quoting style, `[…]`, has no doubling: the name ends at the first "]".  Since commit 417a203
 the regex is `^\[([^\]]*)\]` (a negated class: a newline inside the brackets is read, finding C07-16);
-the name is still taken as the matched text with `.strip("[]")`. -/
+since commit d4f87a6 the name is `group(1)`, the text between the brackets (before: the matched text
+with `.strip("[]")`, which also removed "[" characters belonging to the name, finding C07-18). -/
 
 /-- The name reader shared by table and index names on `[n]` followed by anything, for every n
-without "]" (a newline, quote characters, parentheses, commas, "/", "--", whitespace runs allowed):
-the match is the whole bracket, the rest of the statement is untouched, and the name is n with
-`.strip("[]")` — n without its leading and its trailing "[" characters (`stripSet bracketStripSet n`;
-"]" cannot occur in n). -/
+without "]" (a newline, "[" anywhere, quote characters, parentheses, commas, "/", "--", whitespace
+runs allowed; the empty name too): the name is n itself and the rest of the statement is untouched. -/
 theorem row_name_bracketed (n rest : Str) (hn : ']' ∉ n) :
-    rowNameAndRest ('[' :: n ++ ']' :: rest) = .ok (stripSet bracketStripSet n, rest) := by
-  exact Proofs.Schema.rowNameAndRest_bracket n rest hn
-
-/-- Therefore: a name that neither begins nor ends with "[" is read whole (`BracketSafe`: no "]",
-first and last character not "["; the empty name is `BracketSafe`). -/
-theorem row_name_bracketed_exact (n rest : Str) (h : Proofs.Schema.BracketSafe n) :
     rowNameAndRest ('[' :: n ++ ']' :: rest) = .ok (n, rest) := by
-  rw [Proofs.Schema.rowNameAndRest_bracket n rest h.no_close, Proofs.Schema.stripSet_bracketSafe n h]
+  exact Proofs.Schema.rowNameAndRest_bracket n rest hn
 
 /-- `ColumnDefinition.__init__` on a column whose name is written in brackets, followed by nothing
 or by any non-empty whitespace run and a one-word type: SQLite's name and affinity, for every
-`BracketSafe` and `QuotedSafe` name (no "/", "--", whitespace run: C07-09, C07-13 as for quoted names). -/
-theorem columns_bracketed_partial (d : ColDef) (hb : Proofs.Schema.BracketSafe d.name)
+`QuotedSafe` name without "]" (no "/", "--", whitespace run: C07-09, C07-13 as for quoted names —
+the whole column text still passes the comment stripper and the whitespace collapse). -/
+theorem columns_bracketed_partial (d : ColDef) (hn : ']' ∉ d.name)
     (hname : Proofs.Schema.QuotedSafe d.name)
     (hty : ∀ t, d.type = some t → isIdent t = true ∧ beginsWithKeyword columnKeywords t = false)
     (ws : Str) (hwne : ws ≠ []) (hws : ∀ w ∈ ws, isSpace w = true) :
     ∃ col, parseColumn ('[' :: d.name ++ [']'] ++ (match d.type with | none => [] | some t => ws ++ t)) = .ok col ∧
       col.name = d.name ∧ col.affinity = d.affinity := by
-  exact Proofs.Schema.parseColumn_bracketed d hb hname hty ws hwne hws
+  exact Proofs.Schema.parseColumn_bracketed d hn hname hty ws hwne hws
 
-def exBr : ColDef := ⟨['a', '\n', 'b', '[', '"', ' ', '(', ',', 'c'], some ['I', 'N', 'T']⟩
+def exBr : ColDef := ⟨['[', 'a', '\n', 'b', '[', '"', ' ', '(', ',', 'c', '['], some ['I', 'N', 'T']⟩
 
-/-- non-vacuity; the former witness of C07-16 `[a<NL>b] INT` -/
-example : Proofs.Schema.BracketSafe exBr.name ∧ Proofs.Schema.QuotedSafe exBr.name :=
-  ⟨⟨by decide, by decide, by decide⟩, ⟨by decide, by decide +kernel, by decide +kernel⟩⟩
+/-- non-vacuity (a name that begins and ends with "["); the former witnesses of C07-16 `[a<NL>b] INT`
+and C07-18 `[[a] INT`, `[a[] INT`, `[[]` -/
+example : ']' ∉ exBr.name ∧ Proofs.Schema.QuotedSafe exBr.name :=
+  ⟨by decide, ⟨by decide, by decide +kernel, by decide +kernel⟩⟩
 
 example : (parseColumn ['[', 'a', '\n', 'b', ']', ' ', 'I', 'N', 'T']).toOption.map (fun c => (c.name, c.affinity)) =
       some (['a', '\n', 'b'], .integer) ∧
@@ -331,18 +326,26 @@ example : (parseColumn ['[', 'a', '\n', 'b', ']', ' ', 'I', 'N', 'T']).toOption.
     Proofs.Schema.errorOf (rowNameAndRest ['[', 'a', 'b']) = some .parseError := by
   exact ⟨by decide +kernel, by decide +kernel, by decide +kernel⟩
 
-/-- The statement for *every* bracket name is false (new finding C07-18): `.strip("[]")` also removes
-"[" characters that belong to the name.  `[[a]` is SQLite's column `[a`, `[a[]` is `a[`; both are
-read as `a`. -/
+example : (parseColumn ['[', '[', 'a', ']', ' ', 'I', 'N', 'T']).toOption.map (·.name) = some ['[', 'a'] ∧
+    (parseColumn ['[', 'a', '[', ']', ' ', 'I', 'N', 'T']).toOption.map (·.name) = some ['a', '['] ∧
+    (parseColumn ['[', '[', ']']).toOption.map (·.name) = some ['['] := by
+  exact Proofs.Schema.bracket_edge_kept
+
+/-- The statement for *every* bracket column name stays false, no longer because of the brackets
+(C07-18 is repaired) but for the same two reasons as for quoted names: the column text as a whole
+goes through the comment stripper (open finding C07-09: `[a/b]` is rejected with ValueError) and
+the whitespace collapse (open finding C07-13: `[a  b]` is read as `a b`). -/
 def BracketFullStatement : Prop :=
   ∀ (n : Str), ']' ∉ n → n ≠ [] → ∃ col, parseColumn ('[' :: n ++ [']']) = .ok col ∧ col.name = n
 
+/-- witness (C07-09): `[a/b]` -/
 theorem bracket_counterexample : ¬ BracketFullStatement := by
   exact Proofs.Schema.bracket_counterexample
 
-example : (parseColumn ['[', '[', 'a', ']', ' ', 'I', 'N', 'T']).toOption.map (·.name) = some ['a'] ∧
-    (parseColumn ['[', 'a', '[', ']', ' ', 'I', 'N', 'T']).toOption.map (·.name) = some ['a'] := by
-  exact Proofs.Schema.bracket_edge_renamed
+/-- and without "/" and "-" it is still false (C07-13): `[a  b]` -/
+theorem bracket_counterexample_whitespace :
+    ¬ ∀ (n : Str), ']' ∉ n → '/' ∉ n → '-' ∉ n → ∃ col, parseColumn ('[' :: n ++ [']']) = .ok col ∧ col.name = n := by
+  exact Proofs.Schema.bracket_counterexample_whitespace
 
 /-- unterminated and oddly terminated names, as the regex engine backtracks: `"abc` has no match;
 `"a""` is `"a"` followed by `"`; `"""` is the empty name followed by `"`; `""""` is the name `"` -/
